@@ -65,8 +65,22 @@ func transparentCalleeOf(cc *ssa.CallCommon, parent *ssa.Function) *ssa.Function
 			}
 		}
 	}
-	if h := cc.StaticCallee(); h != nil && len(h.Blocks) > 0 && parent != nil && h.Package() == parent.Package() && h.Parent() == nil && !KnownFunc(FuncQName(h)) {
-		return h
+	if h := cc.StaticCallee(); h != nil && len(h.Blocks) > 0 && parent != nil && h.Parent() == nil {
+		// an instance of a generic helper (`sendOrDone[T]`) is judged by the generic function it comes from
+		o := h
+		if g := h.Origin(); g != nil {
+			o = g
+		}
+		pp := parent
+		for pp.Parent() != nil {
+			pp = pp.Parent()
+		}
+		if g := pp.Origin(); g != nil {
+			pp = g
+		}
+		if o.Package() != nil && o.Package() == pp.Package() && !KnownFunc(FuncQName(o)) {
+			return h
+		}
 	}
 	return nil
 }
